@@ -214,3 +214,18 @@ mutant("c11-negative-index-test-inclusive",
 refactor("c11-guard-written-negated",
          [(B, "                    if n >= lock_deref!(items).len() {", "                    if !(n < lock_deref!(items).len()) {")],
          note="same test written as !(n < len)")
+
+# ---- C13 ---------------------------------------------------------------------
+mutant("c13-collect-too-few-off-by-one",
+       [(B, "        if lhs_len-1 > rhs_len {", "        if lhs_len > rhs_len {")],
+       [("C13", "R13.1")], note="[a, ..rest] := [1] rejected")
+mutant("c13-args-at-least-n",
+       [(E, "                        let minimum = num_params-1;", "                        let minimum = num_params;")],
+       [("C13", "R13.1")])
+mutant("c13-nested-object-gets-fresh-name-set",
+       [(B, "    bind_next(context, scopes, names_in_binding, lhs, new_rhs, None, bind_type)\n        .context(BindNextFailed)?;",
+            "    bind_next(context, scopes, &mut HashSet::new(), lhs, new_rhs, None, bind_type)\n        .context(BindNextFailed)?;")],
+       [("C13", "R13.2")], note="{a, \"k\": {a}} := o no longer rejected")
+mutant("c13-pair-arm-forgets-to-remove-key",
+       [(B, "                    .context(BindObjectPairFailed)?;\n\n                remaining_keys.remove(&prop_name);", "                    .context(BindObjectPairFailed)?;")],
+       [("C13", "R13.3")], note="{\"k\": b, ..rest} := o keeps k in rest")
